@@ -103,7 +103,10 @@ template<class L, class R, bool WithQuotient>
                     bool close = (truth.abs() - got.abs()) < unit;
                     if (!sign_ok || !below || !close) {
                         vf::outcome("bad_quotient");
-                        vf::violation(std::string("quotient/") + (!sign_ok ? "sign" : (!below ? "exceeds_true_magnitude" : "error_ge_one_unit")), id(),
+                        // semantic label: a signed operand type paired with an unsigned one gives an unsigned quotient type; negative quotients
+                        using RepQ = typename cv::scale_of<Q>::rep;
+                        bool unsigned_q_neg = cv::lowest_of<RepQ>().is_zero() && truth.sign() < 0;
+                        vf::violation(std::string("quotient/") + (!sign_ok ? "sign" : (!below ? "exceeds_true_magnitude" : "error_ge_one_unit")) + (unsigned_q_neg ? "/negative_quotient_unsigned_quotient_type" : ""), id(),
                                       id() + " quotient: got " + got.str() + ", true " + truth.str() + ", unit 2^" + std::to_string(qe));
                     } else
                         vf::outcome(got == truth ? "ok_quotient_exact" : "ok_quotient_truncated");
@@ -121,7 +124,7 @@ template<class L, class R, bool WithQuotient>
                 Rat truth = Rat::scaled(a, radix, le) / Rat::scaled(b, radix, re);
                 vf::validated();
                 if (truth > qhi || truth < qlo)
-                    vf::violation("quotient/type_too_narrow", a.str() + "," + b.str(), name + ": " + truth.str() + " is outside the range of the quotient type [" + qlo.str() + "," + qhi.str() + "]");
+                    vf::violation(std::string("quotient/type_too_narrow") + ((qlo.sign() == 0 && truth.sign() < 0) ? "/negative_quotient_unsigned_quotient_type" : ""), a.str() + "," + b.str(), name + ": " + truth.str() + " is outside the range of the quotient type [" + qlo.str() + "," + qhi.str() + "]");
             }
     }
 }
